@@ -6,9 +6,12 @@ import (
 	"encoding/json"
 	"fmt"
 	"os"
+	"path/filepath"
 	"strings"
 	"testing"
 
+	"github.com/robfig/soy/ast"
+	"github.com/robfig/soy/template"
 	"pgregory.net/rapid"
 
 	"verif/harness/gen"
@@ -43,6 +46,10 @@ type C03Case struct {
 	// Decoy (carrier msg): the message first prints the same expression with a cancelling directive.
 	Bundle bool `json:"bundle,omitempty"`
 	Decoy  int  `json:"decoy,omitempty"` // 0 none, 1 |noAutoescape, 2 |id
+	// Harden: the source files declare their namespaces with a wrong mode (the opposite one); the mode
+	// the case means is set on the parsed namespace tags by a parse pass of the application
+	// (Bundle.AddParsePass) - the effective mode is the one the compiled bundle carries
+	Harden bool `json:"harden,omitempty"`
 }
 
 const (
@@ -150,12 +157,6 @@ func buildC03(c C03Case) (pc gen.ProgCase, printerNs, printerTmpl string) {
 		{Name: "b.soy", Namespace: "b.lib", Autoescape: c.CalleeNs, Templates: []ref.Template{show, echo, frame}},
 	}}
 	if c.Split > 0 {
-		opposite := func(m string) string {
-			if m == "false" {
-				return ""
-			}
-			return "false"
-		}
 		extra := ref.File{Name: "c.soy", Namespace: "a", Autoescape: opposite(c.NsMode), Templates: []ref.Template{{Name: "other", Body: []ref.Cmd{txt("other")}}}}
 		if c.Split >= 3 {
 			extra.Namespace, extra.Autoescape = "b.lib", opposite(c.CalleeNs)
@@ -204,6 +205,16 @@ func checkEscaped(frame, want string) error {
 	return nil
 }
 
+func opposite(m string) string {
+	if m == "false" {
+		return ""
+	}
+	return "false"
+}
+
+// c03Pass, when set, is a parse pass that compileBundle adds to the bundle.
+var c03Pass func(template.Registry) error
+
 func hasSpecial(s string) bool { return strings.ContainsAny(s, "&<>\"'") }
 
 func checkC03(c C03Case) Verdict {
@@ -224,6 +235,39 @@ func checkC03(c C03Case) Verdict {
 		pn  interface{}
 		rr  renderResult
 	)
+	if c.Harden {
+		wrong := pc.Prog
+		wrong.Files = append([]ref.File{}, wrong.Files...)
+		meant := map[string]ast.AutoescapeType{}
+		for i := range wrong.Files {
+			switch wrong.Files[i].Autoescape {
+			case "false":
+				meant[wrong.Files[i].Name] = ast.AutoescapeOff
+			case "", "true":
+				meant[wrong.Files[i].Name] = ast.AutoescapeOn
+			default:
+				meant[wrong.Files[i].Name] = ast.AutoescapeContextual
+			}
+			wrong.Files[i].Autoescape = opposite(wrong.Files[i].Autoescape)
+		}
+		names, srcs = gen.Sources(&wrong)
+		c03Pass = func(reg template.Registry) error {
+			for _, t := range reg.Templates {
+				fn := reg.Filename(t.Node.Name)
+				var idx int
+				if _, known := meant[fn]; !known {
+					// (loaded from files: the i-th source is <dir>/0i.soy)
+					if _, serr := fmt.Sscanf(filepath.Base(fn), "%02d.soy", &idx); serr != nil || idx >= len(names) {
+						return fmt.Errorf("harness: unknown file %q", fn)
+					}
+					fn = wrong.Files[idx].Name
+				}
+				t.Namespace.Autoescape = meant[fn]
+			}
+			return nil
+		}
+		defer func() { c03Pass = nil }()
+	}
 	if !finishes(watchdogLimit(), func() {
 		cb, err, pn = compileBundle(names, srcs, pc.Prog.Globals)
 		if err == nil && pn == nil && !c.Bundle {
@@ -403,6 +447,7 @@ func genC03(t *rapid.T) C03Case {
 		Bundle:     rapid.IntRange(0, 3).Draw(t, "bundle") == 0,
 		Decoy:      rapid.SampledFrom([]int{0, 0, 1, 2}).Draw(t, "decoy"),
 		Source:     rapid.SampledFrom([]int{0, 0, 0, 1, 1, 2, 3}).Draw(t, "source"),
+		Harden:     rapid.IntRange(0, 7).Draw(t, "harden") == 5,
 	}
 	n := rapid.SampledFrom([]int{0, 0, 1, 1, 2, 3}).Draw(t, "chainLen")
 	for i := 0; i < n; i++ {
@@ -471,6 +516,8 @@ func c03Exhaustive(t *testing.T, rec func(c C03Case, v Verdict) bool) (n int) {
 }
 
 func TestC03(t *testing.T) {
+	fileRoute = true
+	defer func() { fileRoute = false }()
 	if shard() == "0" && os.Getenv("VERIF_REPLAY") == "" && os.Getenv("VERIF_CORPUS_ONLY") == "" {
 		rec := newRecorder("C03x")
 		failed := false
